@@ -608,7 +608,21 @@ func (p *Program) retarget(f *File, d *Def, text string, to *Def) {
 // injectInvalid makes the program uncompilable in one place.
 func (p *Program) injectInvalid() {
 	f := p.Files[ch("invalid.file", len(p.Files))]
-	switch ch("invalid.kind", 15) {
+	switch ch("invalid.kind", 16) {
+	case 15:
+		// an enum item spelled in another case: names are case sensitive, no item is meant
+		e := p.add(f, &Def{Kind: KEnum, Name: p.name("E"), Items: []EnumItem{{Name: "RED", Value: 0}, {Name: "Green", Value: 1}, {Name: "blue", Value: 2}}})
+		bad := []string{"red", "Red", "GREEN", "green", "BLUE", "Blue"}[ch("invalid.case-variant", 6)]
+		v := &ConstVal{Kind: CRef, Ref: &Ref{e.File, e.Name}, Item: bad}
+		switch ch("invalid.case-where", 3) {
+		case 0:
+			p.add(f, &Def{Kind: KConst, Name: p.name("C"), Type: &TypeRef{Ref: &Ref{e.File, e.Name}}, Value: v})
+		case 1:
+			p.add(f, &Def{Kind: KConst, Name: p.name("C"), Type: &TypeRef{Base: "list", Elem: &TypeRef{Ref: &Ref{e.File, e.Name}}}, Value: &ConstVal{Kind: CList, Items: []*ConstVal{v}}})
+		default:
+			p.add(f, &Def{Kind: KStruct, Name: p.name("S"), Fields: []*FieldDef{{ID: 1, Name: "c", Req: ReqOptional, Type: &TypeRef{Ref: &Ref{e.File, e.Name}}, Default: v}}})
+		}
+		p.Invalid = "enum item " + bad + " does not exist (only in another case) in " + f.RelPath()
 	case 14:
 		// a struct constant referred to where another struct with an incompatible field of the same name is declared
 		a := p.add(f, &Def{Kind: KStruct, Name: p.name("S"), Fields: []*FieldDef{{ID: 1, Name: "v", Req: ReqOptional, Type: &TypeRef{Base: "string"}}}})
@@ -963,6 +977,36 @@ func (p *Program) genDef(f *File, o Options) {
 	case KException:
 		p.add(f, &Def{Kind: KException, Name: p.name("X"), Fields: p.genFields(f, "why", 2, o, false)})
 	case KTypedef:
+		if simrt.Flip("typedef.keyed-map", 0.12) {
+			// a typedef of a container in which one typedef'd scalar occurs twice:
+			// `typedef string Tk; typedef map<Tk, set<Tk>> Tm` (no cycle in that)
+			var keys []*Def
+			for _, d := range p.visible(f, KTypedef) {
+				if d.Type != nil && d.Type.Ref == nil && (d.Type.Base == "string" || d.Type.Base == "i32" || d.Type.Base == "i64") {
+					keys = append(keys, d)
+				}
+			}
+			var kd *Def
+			if len(keys) > 0 && simrt.Flip("typedef.keyed-map-reuse", 0.6) {
+				kd = keys[ch("typedef.keyed-map-key", len(keys))]
+			} else {
+				kd = p.add(f, &Def{Kind: KTypedef, Name: p.name("Tk"), Type: &TypeRef{Base: []string{"string", "i32", "i64"}[ch("typedef.key-base", 3)]}})
+			}
+			k := &TypeRef{Ref: &Ref{kd.File, kd.Name}}
+			var t *TypeRef
+			switch ch("typedef.keyed-map-shape", 4) {
+			case 0:
+				t = &TypeRef{Base: "map", Key: k, Elem: k}
+			case 1:
+				t = &TypeRef{Base: "map", Key: k, Elem: &TypeRef{Base: "list", Elem: k}}
+			case 2:
+				t = &TypeRef{Base: "list", Elem: &TypeRef{Base: "map", Key: k, Elem: &TypeRef{Base: "set", Elem: k}}}
+			default:
+				t = &TypeRef{Base: "map", Key: k, Elem: &TypeRef{Base: "map", Key: k, Elem: &TypeRef{Base: "i32"}}}
+			}
+			p.add(f, &Def{Kind: KTypedef, Name: p.name("Tm"), Type: t})
+			break
+		}
 		p.add(f, &Def{Kind: KTypedef, Name: p.name("Td"), Type: p.genType(f, 0, o)})
 	case KEnum:
 		d := &Def{Kind: KEnum, Name: p.name("E")}
